@@ -100,7 +100,7 @@ fn check_one<CS: BbsCiphersuite>(rep: &Report, ck: &str, c: &Case) -> CheckResul
     // keys related to this one, imported through the octet form and used right after it on this thread: r - sk
     // (the public key is the negation: the encodings differ in the sign bit only), sk + 1, 2 sk, sk with its octets
     // reversed.  Each must sign and verify like any other key, and the original key must still work afterwards.
-    if c.key.ikm.seed % 3 == 0 {
+    if c.key.ikm.seed % 6 == 0 && l <= 40 {
         use bls12_381_plus::Scalar;
         let skb = sk.to_bytes();
         if let Some(x) = Option::<Scalar>::from(Scalar::from_be_bytes(&skb)) {
@@ -361,7 +361,7 @@ pub fn run(ctx: &Ctx, rep: &Report) -> Meta {
     Meta {
         rule: "cases = (suite, key spec, header in {None, Some(b\"\"), bytes}, message vector) from edge-weighted sets, each run under BOTH suites; \
                oracle = sign Ok, verify Ok, 80-byte round trip equal and verifying, None/empty equivalence of header and message list (byte-identical signatures, cross verification); \
-               a quarter of the cases run a call the library refuses (17 kinds: key generation with short key material / long tags, garbage octets into the decoders, a commitment of 0xc0 octets into blind_sign, verification / proof generation / update with other headers, positions out of range, lists too short, a tag of 256 octets into hash_to_scalar) right before signing and another quarter right before verifying; a third use keys related to the case's key (r - sk, sk + 1, 2 sk, octets reversed; imported through the octet form) right after it on the same thread; half of the cases are preceded by a warm-up history of unrelated legal calls on the same thread (other suite, blind interface, custom api_ids, refused operations); a cold-start contention phase (all workers signing and verifying vectors of 1..130 messages at once), a size sweep over every L in 0..=130 (quick) / 0..=520 (thorough), in every second case the signature is first offered with a wrong header and a shortened message list; verification repeated on a freshly started thread for a quarter of the cases; four long-lived threads with 320 (quick) / 2000 (thorough) sign / verify rounds each in sequence; non-trivial = outside the fixture envelope (fixture key and L in {1,10} and header length in {0,16}); distinct by SHA-256 fingerprint of the case"
+               a quarter of the cases run a call the library refuses (17 kinds: key generation with short key material / long tags, garbage octets into the decoders, a commitment of 0xc0 octets into blind_sign, verification / proof generation / update with other headers, positions out of range, lists too short, a tag of 256 octets into hash_to_scalar) right before signing and another quarter right before verifying; a sixth (vectors of up to 40 messages) use keys related to the case's key (r - sk, sk + 1, 2 sk, octets reversed; imported through the octet form) right after it on the same thread; half of the cases are preceded by a warm-up history of unrelated legal calls on the same thread (other suite, blind interface, custom api_ids, refused operations); a cold-start contention phase (all workers signing and verifying vectors of 1..130 messages at once), a size sweep over every L in 0..=130 (quick) / 0..=520 (thorough), in every second case the signature is first offered with a wrong header and a shortened message list; verification repeated on a freshly started thread for a quarter of the cases; four long-lived threads with 320 (quick) / 2000 (thorough) sign / verify rounds each in sequence; non-trivial = outside the fixture envelope (fixture key and L in {1,10} and header length in {0,16}); distinct by SHA-256 fingerprint of the case"
             .into(),
         assumptions: vec![
             "library linked as an ordinary dependency (cfg(not(test)), features bbsplus+bbsplus_blind+cl03)".into(),
